@@ -30,8 +30,10 @@ from common import InfraError
 MANIFEST = {
     "text": "Kernel-checked theorems about the model of the C type-string parser (tokenizer next_token, parse_complete, "
             "parse_sequel of parse_c_type.c) and of the backend's name printer: the parser reads the name printed for every "
-            "type tree of the primitive/pointer/array/struct/union/enum fragment back as that type, over every declaration "
-            "context (parse_cname_partial, typeof_cname_partial); const/volatile are ignored wherever the parser accepts "
+            "well-formed type of the full type language -- primitive/struct/union/enum leaves, pointers, arrays and function "
+            "pointer types with fixed, empty and variadic parameter lists nested at will -- back as that type, over every "
+            "declaration context (parse_cname, typeof_cname; parse_cname_partial is the earlier fragment corollary); blanks "
+            "between void and ) never matter (void_param_list_blank_insensitive); const/volatile are ignored wherever the parser accepts "
             "them (qualifiers_ignored); the decimal, octal and hex texts of a length are one number token each and denote "
             "the same number (decimal_octal_hex_length); every order of the short/long/signed/unsigned specifiers gives "
             "the same result (spec_order); the model's keyword and standard-typename tables are the ones re-extracted from "
@@ -41,8 +43,9 @@ MANIFEST = {
             "realize_c_type.c) and the model on grammar-generated and near-miss strings over random declaration contexts; "
             "the property itself (both reject, or the same type) is evaluated between the two real parsers on every string.",
     "note": "Partial: the Python side (pycparser + cparser.py) is not modelled, only run.  The opcode array with "
-            "back-patching is represented by the declarator data the model returns; that gap and function pointer types "
-            "(outside parse_cname_partial) are covered by the correspondence only.  Not modelled: length*itemsize overflow, "
+            "back-patching is represented by the declarator data the model returns; that gap is covered by the "
+            "correspondence only.  WF asks for adjusted parameter lists (no array parameter, (void) is the empty list): "
+            "wf_hypotheses_needed shows the statement is false on trees without it.  Not modelled: length*itemsize overflow, "
             "the 1200-opcode limit, embedded NUL / non-ASCII bytes.  Trusted: glibc strtoull, the harness generators, "
             "canonicalisers and the constructive classification of known divergences.",
     "technique": "Lean 4 proof (structural induction over type trees, declarators and token lists; regenerated name tables) + "
@@ -952,11 +955,14 @@ def _rep_typedef_as_name(toks, d):
 
 
 def _rep_qualified_void(toks, d):
-    """`(const void)`: only the unqualified `(void)` is an empty parameter list for the C parser"""
+    """only the bare `(void)` is an empty parameter list for the C parser; cparser.py also takes a qualified void,
+    a named one (`void x`) and a typedef of void"""
+    voids = ["void"] + [nm for nm, t in d.typedefs if t == ("P", "void")]
     for i, j in sorted(_pairs(toks).items()):
         inner = toks[i + 1:j]
-        if "void" in inner and len(inner) > 1 and all(t in QUAL or t == "void" for t in inner) \
-                and inner.count("void") == 1:
+        core = [t for t in inner if t not in QUAL]
+        if inner != ["void"] and 1 <= len(core) <= 2 and core[0] in voids and \
+                (len(core) == 1 or (IDENT_RE.match(core[1]) and not _is_type_name(core[1], d))):
             return [toks[:i + 1] + ["void"] + toks[j:]]
     return []
 
